@@ -7,6 +7,7 @@ import (
 	"strconv"
 	"strings"
 	"sync"
+	"sync/atomic"
 	"testing"
 
 	"github.com/wkhere/bcl"
@@ -40,6 +41,9 @@ func (c12) Gen(seed uint64, idx int, tier string) *Scenario {
 		sc.SetInt("clients", r.Range(2, 4))
 		sc.SetInt("ops", r.Range(2, 7))
 		sc.SetInt("oseed", r.Intn(1<<30))
+		if r.Chance(1, 6) {
+			sc.SetInt("sharedwriter", 1)
+		}
 		return sc
 	}
 	class := prng.Pick(r, []string{"many-errors", "many-errors", "many-errors", "valid", "valid-big", "lex-early", "syntax-late"})
@@ -65,8 +69,14 @@ func (c12) Gen(seed uint64, idx int, tier string) *Scenario {
 		sc.GateClose = r.Chance(1, 2)
 		sc.Bias = prng.Pick(r, []string{"reader-eager", "reader-eager", "log-last", "uniform", "lifo", "parser-eager"})
 	}
-	if r.Chance(1, 6) {
+	if r.Chance(1, 4) {
 		sc.Reads[r.Intn(len(sc.Reads))].Err = true
+	}
+	if r.Chance(1, 3) {
+		// the log writer is a plain unsynchronised buffer that the caller reads as soon as the
+		// call is back: any goroutine of the call that still writes then is a data race
+		sc.RawLog = true
+		sc.GateLog = false
 	}
 	return sc
 }
@@ -103,13 +113,21 @@ type callerEnv struct {
 	out, log   *demux
 	binding    bcl.Binding
 	srcs       [][]byte
+	dumps      [][]byte
 	orderSrc   []byte
 	orderKind  string
 }
 
 // doOp performs one call and returns a digest of everything it produced.
+var freshName atomic.Int64
+
 func (e *callerEnv) doOp(op, arg int) string {
 	src := e.srcs[arg%len(e.srcs)]
+	if arg&16 != 0 {
+		// a variable name nobody has used before in this process (local names are not part of
+		// any result): whatever the library remembers about identifiers is written now
+		src = append([]byte(fmt.Sprintf("var fresh_%010d = 1\n", freshName.Add(1))), src...) // fixed width: offsets stay the same
+	}
 	var res string
 	func() {
 		defer func() {
@@ -140,7 +158,12 @@ func (e *callerEnv) doOp(op, arg int) string {
 			d, e1, e2 := DumpProg(e.shared)
 			res = digest("dump-shared", string(d), e1, e2)
 		case 4:
-			lr := loadVia(e.sharedDump, nil, "l", arg&1 != 0)
+			// different callers load different stored programs at the same time
+			d := e.sharedDump
+			if len(e.dumps) > 0 && arg&2 != 0 {
+				d = e.dumps[(arg>>2)%len(e.dumps)]
+			}
+			lr := loadVia(d, nil, "l", arg&1 != 0)
 			if lr.Err != nil || lr.Panic != "" {
 				res = digest("load", errText(lr.Err), lr.Panic)
 				return
@@ -233,7 +256,93 @@ func coldStart(o *Outcome, sc *Scenario) {
 	o.Evals += n + 1
 }
 
+// lockedWriter is a writer that is safe for concurrent use in the ordinary way (a mutex);
+// it keeps every Write call apart.
+type lockedWriter struct {
+	mu     sync.Mutex
+	writes []string
+}
+
+func (w *lockedWriter) Write(p []byte) (int, error) {
+	w.mu.Lock()
+	w.writes = append(w.writes, string(p))
+	w.mu.Unlock()
+	return len(p), nil
+}
+
+// c12SharedWriter: several goroutines execute one Prog whose output writer is one shared,
+// properly locked writer. What each print contributes must arrive whole: the lines seen are
+// exactly the lines of the solo run, each as many times as there were executions.
+func c12SharedWriter(sc *Scenario) *Outcome {
+	o := &Outcome{}
+	r := prng.New(uint64(sc.Int("oseed", 1)), "sharedwriter")
+	cfg := gen.DefaultCfg(r)
+	cfg.Safe, cfg.PrintHeavy, cfg.NoNL, cfg.NoBind = true, true, true, true
+	cfg.LongTail = true
+	cfg.LongSizes = []int{500, 1023, 1024, 1025, 2048, 4097}
+	cfg.Stmts = r.Range(4, 14)
+	sp := gen.Generate(r, cfg)
+	w := &lockedWriter{}
+	var log bytes.Buffer
+	prog, err := bcl.Parse(sp.Src, "shared.bcl", bcl.OptOutput(w), bcl.OptLogger(&log))
+	if err != nil {
+		o.Skipped = true
+		return o
+	}
+	if _, _, err := bcl.Execute(prog); err != nil {
+		o.Skipped = true
+		return o
+	}
+	solo := strings.Join(w.writes, "")
+	want := map[string]int{}
+	for _, l := range strings.SplitAfter(solo, "\n") {
+		if l != "" {
+			want[l]++
+		}
+	}
+	w.writes = nil
+	nc, reps := sc.Int("clients", 3), sc.Int("ops", 3)
+	barrier := make(chan struct{})
+	var wg sync.WaitGroup
+	for c := 0; c < nc; c++ {
+		wg.Add(1)
+		go func() {
+			defer wg.Done()
+			defer func() { recover() }()
+			<-barrier
+			for k := 0; k < reps; k++ {
+				bcl.Execute(prog)
+			}
+		}()
+	}
+	close(barrier)
+	wg.Wait()
+	Beat()
+	got := map[string]int{}
+	for _, l := range strings.SplitAfter(strings.Join(w.writes, ""), "\n") {
+		if l != "" {
+			got[l]++
+		}
+	}
+	o.Evals = nc * reps
+	o.Nontrivial = true
+	o.Hash = hash64(string(sp.Src)) ^ 0x5AFE
+	for l, n := range want {
+		if got[l] != n*nc*reps {
+			o.viol("C12", "interference", "with a shared, locked output writer the printed lines of concurrent executions are not whole",
+				fmt.Sprintf("line %q was printed %d times, expected %d (= %d per execution x %d executions); %d distinct lines seen, %d expected",
+					short(l, 60), got[l], n*nc*reps, n, nc*reps, len(got), len(want)), sc)
+			break
+		}
+	}
+	o.probe("shared_locked_writer_runs", 1)
+	return o
+}
+
 func c12Callers(sc *Scenario) *Outcome {
+	if sc.Int("sharedwriter", 0) == 1 {
+		return c12SharedWriter(sc)
+	}
 	o := &Outcome{}
 	r := prng.New(uint64(sc.Int("oseed", 1)), "callers")
 	nc, nops := sc.Int("clients", 2), sc.Int("ops", 3)
@@ -263,6 +372,15 @@ func c12Callers(sc *Scenario) *Outcome {
 		return o
 	}
 	env.sharedDump, _, _ = DumpProg(env.shared)
+	for i := 0; i < 3; i++ {
+		c2 := gen.DefaultCfg(r)
+		c2.Safe = true
+		if m := ParseMem(gen.Generate(r, c2).Src, "d.bcl", 0); m.Err == nil && m.Panic == "" {
+			if d, e1, e2 := DumpProg(m.Prog); e1 == "" && e2 == "" {
+				env.dumps = append(env.dumps, d)
+			}
+		}
+	}
 	me := goid()
 	env.out.bufs[me], env.log.bufs[me] = &bytes.Buffer{}, &bytes.Buffer{}
 	_, env.binding, _ = bcl.Execute(env.shared)
@@ -272,10 +390,8 @@ func c12Callers(sc *Scenario) *Outcome {
 	solo := make([][]string, nc)
 	for c := range lists {
 		for k := 0; k < nops; k++ {
-			cl := call{r.Intn(numOps), r.Intn(32)}
-			if r.Chance(1, 3) {
-				cl.op = 2 // executing the shared Prog is the interesting case
-			}
+			// Parse, Interpret, Execute(shared), Dump(shared), LoadProg, Unmarshal, ParseFile, Bind(shared)
+			cl := call{r.Weighted(15, 10, 25, 5, 15, 10, 10, 10), r.Intn(32)}
 			lists[c] = append(lists[c], cl)
 			solo[c] = append(solo[c], env.doOp(cl.op, cl.arg))
 		}
